@@ -453,6 +453,7 @@ def finalize_iteration(net, niter, residual_norm, nonlinear_method, errors, tols
                        solver_vars, pit_names, filtered):
     # Control of damping factor
     if nonlinear_method == "automatic":
+        alpha_used = get_net_option(net, "alpha")
         errors_increased = set_damping_factor(net, niter, errors)
         logger.debug("alpha: %s" % get_net_option(net, "alpha"))
         for error_increased, var, val, pit, f in zip(errors_increased, solver_vars, vals_old,
@@ -464,7 +465,8 @@ def finalize_iteration(net, niter, residual_norm, nonlinear_method, errors, tols
                     net["_active_pit"][pit][:, globals()[var.upper() + 'INIT']] = val
                 else:
                     net["_active_pit"][pit][f, globals()[var.upper() + 'INIT']] = val
-        if get_net_option(net, "alpha") != 1:
+        # a step can only be accepted if it was taken with the full step width
+        if get_net_option(net, "alpha") != 1 or alpha_used != 1:
             net.converged = False
             return
     elif nonlinear_method != "constant":
